@@ -4,26 +4,26 @@ hand-written descriptions below."""
 import json, os, re
 root = os.path.dirname(os.path.dirname(os.path.abspath(__file__)))
 DESC = {
- 'C01': ('trunk, forward exactness of every rule, identity rule, closure soundness, `_apply`; re-stated premises: freshness (C06), verdict (C17), substitution (C15), helper listeners', 'truth-table countermodel search for valid verdicts (every 5th argument with non-identical equal items); real-branch histories', 'B3E + FDE biconditional rules'),
- 'C02': ('backward exactness, skip-justification (saturation) incl. access rules and serial rule, fat-quantifier service, identity completeness in all orders, model-builder value, choice-only selection, helper listeners, substitution', 'open-branch models re-evaluated independently', 'FDE evaluator (tables)'),
- 'C03': ('synthesised termination measure (57 logics), ticking, exactness + one rule per shape, no-limit sites, step loop choice-only', 'verdict vs truth table', '(inherited B3E/FDE)'),
- 'C04': ('forward+backward exactness (operator, quantifier, modal), attrs/filters, world discipline, branching, shapes, frame closure; re-stated: substitution, helper listeners', '—', 'B3E, FDE biconditionals'),
- 'C05': ('closure exactness both ways for atoms / predications / opaque sentences, arrival symmetry, no cross-world closure, model-builder value, non-identical equal constants, closure hooks', '—', '—'),
- 'C06': ('freshness invariant (inductive), views, copy, `next`, semantic frame condition, witness use', 'real append/copy histories', '— (fixed)'),
- 'C07': ('every table via body interpretation + `__call__`, definitions, same-as-base, `truth_table` over call histories', '(enumeration on real code counted as enum)', 'FDE linear ∧/∨'),
- 'C08': ('`_limit_best` loop invariant, evaluator clauses per logic asked about a non-zero world, enforce closure, `_complete_frames`', 'whole models vs independent evaluator; identity completion', 'FDE generalisers; one-pass identity'),
- 'C09': ('score functions exception-free; selection choice-only; build = steps; order-insensitivity of identity / modal / fat-quantifier rules; helper listeners', 'options × build/step × hash orders × premise permutations', '— (fixed)'),
- 'C10': ('reflexivity chain; re-stated freshness and substitution', 'reflexivity / weakening / renaming (mixed index/subscript targets); real-branch histories', '—'),
- 'C11': ('registry closure; semantic inclusion per pair; access-rule saturation per modal extension', 'valid-in-base re-run in extension', '(inherited B3E/FDE)'),
- 'C12': ('Polish and Standard writer functions vs reference rendering; table bijection; `argstr` / `from_argstr`', 'round trips, argstr shapes, near-miss injectivity', '—'),
- 'C13': ('ParseContext primitives, chomp invariant + variant, bound discipline, 14 reader contracts (prefix + standard) with 2 + 1 loop invariants', 'exhaustive strings ≤ 4/5 vs reference grammar, binding-discipline family, history, nesting', '— (fixed)'),
- 'C14': ('orderitems, wrappers, order laws, hash/ident/copy, immutability, sort keys, DequeCache invariant', 'pairwise value semantics; cache transparency in fresh interpreters', '— (fixed)'),
- 'C15': ('substitute / unquantify / negative / derived attributes (helpers followed, ordered-set contract) / lazy wrapper', 'structural walk incl. non-identical parameters and equal compound operands', '—'),
- 'C16': ('listeners incl. fork aliasing, `Tree._build`, `_build_branches`, `_compute_stats`, `Branch.closed`, `_apply`', 'invariant after every step of real proofs (recorded numbers stable); tree and stats recomputed', '— (fixed)'),
+ 'C01': ('trunk, forward exactness of every rule, identity rule, closure soundness, `_apply`; re-stated premises: freshness (C06), verdict (C17), substitution (C15), helper listeners; branch node index, `Tableau.branch` / `Branch.copy`, trunk with repeated premises', 'truth-table countermodel search for valid verdicts (every 5th argument with non-identical equal items); real-branch histories; quantified one-premise family vs small models', 'B3E + FDE biconditional rules'),
+ 'C02': ('backward exactness, skip-justification (saturation) incl. access rules and serial rule, fat-quantifier service, identity completeness in all orders, model-builder value, choice-only selection, helper listeners, substitution; limit-flag wrappers, event dispatch, branch node index, fork premises', 'open-branch models re-evaluated independently', 'FDE evaluator (tables)'),
+ 'C03': ('synthesised termination measure (57 logics), ticking, exactness + one rule per shape, no-limit sites, step loop choice-only; branch node index, fork premises', 'verdict vs truth table', '(inherited B3E/FDE)'),
+ 'C04': ('forward+backward exactness (operator, quantifier, modal), attrs/filters, world discipline, branching, shapes, frame closure; re-stated: substitution, helper listeners; freshness (C06)', '—', 'B3E, FDE biconditionals'),
+ 'C05': ('closure exactness both ways for atoms / predications / opaque sentences, arrival symmetry, no cross-world closure, model-builder value, non-identical equal constants, closure hooks; branch node index (add / copy / select / meets / search), cross-world classical literal sets', '—', '—'),
+ 'C06': ('freshness invariant (inductive), views, copy, `next`, semantic frame condition, witness use; `Sentence.constants` (C15), copy content', 'real append/copy histories', '— (fixed)'),
+ 'C07': ('every table via body interpretation + `__call__`, definitions, same-as-base, `truth_table` over call histories; value-set membership by identity, unassigned operand, the model clause of `value_of_operated`', '(enumeration on real code counted as enum)', 'FDE linear ∧/∨'),
+ 'C08': ('`_limit_best` loop invariant, evaluator clauses per logic asked about a non-zero world, enforce closure, `_complete_frames`; base generators, overrides reading `R`, classical completion at every world', 'whole models vs independent evaluator; identity completion', 'FDE generalisers; one-pass identity'),
+ 'C09': ('score functions exception-free; selection choice-only; build = steps; order-insensitivity of identity / modal / fat-quantifier rules; helper listeners; freshness (C06), `gc` frame', 'options × build/step × hash orders × premise permutations', '— (fixed)'),
+ 'C10': ('reflexivity chain; re-stated freshness and substitution; branch node index, identity completeness with other-world content', 'reflexivity / weakening / renaming (mixed index/subscript targets); real-branch histories', '—'),
+ 'C11': ('registry closure; semantic inclusion per pair; access-rule saturation per modal extension; serial saturation; world / attribute / branching clauses of inherited rules per logic', 'valid-in-base re-run in extension', '(inherited B3E/FDE)'),
+ 'C12': ('Polish and Standard writer functions vs reference rendering; table bijection; `argstr` / `from_argstr`; parser created per `from_argstr` call', 'round trips, argstr shapes, near-miss injectivity', '—'),
+ 'C13': ('ParseContext primitives, chomp invariant + variant, bound discipline, 14 reader contracts (prefix + standard) with 2 + 1 loop invariants; which store the readers use (`ParseContext.__init__`, `DefaultParser.__call__`, stateful store)', 'exhaustive strings ≤ 4/5 vs reference grammar, binding-discipline family, history, nesting; store histories', '— (fixed)'),
+ 'C14': ('orderitems, wrappers, order laws, hash/ident/copy, immutability, sort keys, DequeCache invariant; comparison overrides', 'pairwise value semantics; cache transparency in fresh interpreters; construction through abstract classes', '— (fixed)'),
+ 'C15': ('substitute / unquantify / negative / derived attributes (helpers followed, ordered-set contract) / lazy wrapper; cached attributes of substitution results (lemma `subst-attrs`)', 'structural walk incl. non-identical parameters and equal compound operands', '—'),
+ 'C16': ('listeners incl. fork aliasing, `Tree._build`, `_build_branches`, `_compute_stats`, `Branch.closed`, `_apply`; trunk of every logic, `Tableau.branch` / `Branch.copy`, event dispatch, flag targets', 'invariant after every step of real proofs (recorded numbers stable); tree and stats recomputed', '— (fixed)'),
  'C17': ('full lifecycle incl. relational non-interference, setters past the guard, locking', 'cut-point sweep', '—'),
- 'C18': ('qset core operations with ghost position function; linked slice count', 'operation sequences on qset / linqset / Predicates; exhaustive slice family', '— (fixed)'),
+ 'C18': ('qset core operations with ghost position function; linked slice count', 'operation sequences on qset / linqset / Predicates; exhaustive slice family; `Predicates._hook_check` enumeration', '— (fixed)'),
  'C19': ('`_write_structure`, template binding over writer histories, node-class totality, registry, table totality', 'rendering of finished tableaux with long-lived writers and quit-flag inputs', '—'),
- 'C20': ('`having`, predicate data, `flat`, `get_data` alignment, serial world covered', 'export vs evaluator on branch models', 'LP-family anti-extension of unmentioned tuples'),
+ 'C20': ('`having`, predicate data, `flat`, `get_data` alignment, serial world covered; `flat` under adversarial set order, class-level state', 'export vs evaluator on branch models', 'LP-family anti-extension of unmentioned tuples'),
 }
 man = {c['property_id']: c for c in json.load(open(os.path.join(root, 'MANIFEST.json')))['checks']}
 rows = ['| id | level claimed | obligations / discharged (z3 · enum · synthesis) | solver s | proved core | bounded stand-in (evaluations) | known findings |', '|---|---|---|---|---|---|---|']
